@@ -1223,7 +1223,8 @@ def neighbours(case):
 
 def run(ctx):
     cnt = Counter()
-    ctx.known = list(ctx.known) + [dict(p, status='known', property='C18') for p in PENDING_FINDINGS]
+    for p in PENDING_FINDINGS:
+        ctx.known.append(dict(p, status='known', property='C18'))
     ctx.prove(['gen_cache'], ['GIVerif.Props.C18'], 'GIVerif.Props.C18')
     ctx.log('proofs rebuilt and audited: %s' % ('ok' if not ctx.broken else ctx.broken))
     cachestore = setup(ctx)
@@ -1344,7 +1345,8 @@ def run(ctx):
 
 
 def replay(ctx, rep):
-    ctx.known = list(ctx.known) + [dict(p, status='known', property='C18') for p in PENDING_FINDINGS]
+    for p in PENDING_FINDINGS:
+        ctx.known.append(dict(p, status='known', property='C18'))
     r = rep.get('replay') or {}
     if r.get('kind') != 'schedule':
         print('nothing to replay: %s' % (rep.get('no_longer_checks') or r, ))
